@@ -336,6 +336,36 @@ func c15prop(ev *evid.Rec) func(rt *rapid.T) {
 						s.expectLogin(l, pw, "after new-user")
 					}
 				},
+				"newUserOverTakenFile": func(rt *rapid.T) {
+					// a creation whose login is not a file name but resolves to the account file of an existing account
+					// ("./ops" next to "ops"): whatever the server answers, the existing account stays what it is in all three
+					// views, and the odd login opens no door
+					s.rt = rt
+					l, ok := s.genLogin("login", true, false)
+					if !ok || strings.ContainsAny(l, "\x00") {
+						rt.Skip("no account")
+					}
+					sp := rapid.SampledFrom([]string{"./", "../", "/", "x/../", ".//"}).Draw(rt, "spelling") + l
+					via := rapid.SampledFrom([]string{"new-user", "update-user"}).Draw(rt, "via")
+					acc := s.genAccess("acc").Defined()
+					rec("%s %q (the file of %q)", via, sp, l)
+					var r *hlref.Tran
+					if via == "new-user" {
+						r = s.admin.Request(hlref.TranNewUser, hlref.F(hlref.FUserLogin, hlref.Obfuscate([]byte(sp))), hlref.F(hlref.FUserName, []byte("shadow")),
+							hlref.F(hlref.FUserPassword, hlref.Obfuscate([]byte("shadowpw"))), hlref.F(hlref.FUserAccess, acc[:]))
+					} else {
+						r = s.admin.Request(hlref.TranUpdateUser, hlref.F(hlref.FData, subFields(hlref.F(hlref.FUserLogin, hlref.Obfuscate([]byte(sp))), hlref.F(hlref.FUserName, []byte("shadow")),
+							hlref.F(hlref.FUserPassword, hlref.Obfuscate([]byte("shadowpw"))), hlref.F(hlref.FUserAccess, acc[:]))))
+					}
+					if r != nil && r.Err == 0 {
+						rt.Fatalf("%s with login %q, which resolves to the account file of the existing account %q, was accepted\nhistory: %s", via, sp, l, strings.Join(s.history, " | "))
+					}
+					s.usePw("shadowpw")
+					if s.tryLogin(sp, "shadowpw") {
+						rt.Fatalf("after the refused %s, login %q is accepted\nhistory: %s", via, sp, strings.Join(s.history, " | "))
+					}
+					s.expectLogin(l, s.model[l].pw, "after a refused creation over the account's file")
+				},
 				"setUser": func(rt *rapid.T) {
 					s.rt = rt
 					l, ok := s.genLogin("login", true, false)
